@@ -568,16 +568,16 @@ def histories_for(ctx):
     ex2 = exhaustive(CORE_OPS + MORE_OPS, 2 if quick else 3)
     qs = query_histories(2 if quick else 3, 2 if quick else 3, ["owned", "shared"] if quick else ["owned", "shared", "copy"])
     if not quick:
-        qs += query_histories(1, 4, ["owned"])
+        qs += query_histories(2, 4, ["owned", "shared"])
     fq = foreign_query_histories(1 if quick else 2)
     sp = special_histories()
-    rnd = [gen_history(rng, rng.choice([8, 20, 40, 60])) for _ in range(2500 if quick else 40000)]
+    rnd = [gen_history(rng, rng.choice([8, 20, 40, 60])) for _ in range(8000 if quick else 90000)]
     ctx.cov["rule"] = (
         f"corpus ({len(corpus)}) + exhaustive A: all op sequences of length <= {3 if quick else 4} over a {len(CORE_OPS)}-op alphabet on 3 variables "
         f"(literal, unterminated/terminated attached memory, capacity boundaries len 3/4 -> cap 3/7, self arguments of assign/append/prepend/replace) "
         f"({len(ex1)} histories) + exhaustive B: length <= {2 if quick else 3} over {len(CORE_OPS) + len(MORE_OPS)} ops ({len(ex2)}) + "
         f"query scope: every byte string over {{a,b,'/',' ',0x80}} of length <= {2 if quick else 3} as subject (owned, shared{'' if quick else ', copied'}) x every such string "
-        f"of length <= {2 if quick else 3}{'' if quick else ' (and subjects <= 1 x arguments <= 4)'} as argument of every query/search/split/trim/replace/token op at every start index ({len(qs)} histories) + "
+        f"of length <= {2 if quick else 3}{'' if quick else ' (and subjects <= 2 x arguments <= 4)'} as argument of every query/search/split/trim/replace/token op at every start index ({len(qs)} histories) + "
         f"every sub-range of the 4 foreign regions as attached subject x arguments of length <= {1 if quick else 2} ({len(fq)}) + "
         f"{len(sp)} special (toBool table, all 255 bytes through the case maps, printf around the 200-char buffer) + "
         f"{len(rnd)} random histories of 8..60 ops over 4 variables, 2 literals, 2 attached ranges; "
